@@ -5,3 +5,4 @@ pub mod model;
 pub mod parse;
 pub mod sha256;
 pub mod sighash;
+pub mod rewind;
